@@ -68,6 +68,12 @@ func c16RunResume(v asmVariant, ops []asmOp, split, resume, mode int, slack int,
 // c16RunFull: dry=true runs the whole scenario with emitters that have no target buffer (NewEmitter(nil),
 // Clone(nil)): program counter, tracked flags and label addresses must still be those of direct emission.
 func c16RunFull(v asmVariant, ops []asmOp, split, resume, mode int, slack int, decoy, dry bool) string {
+	return c16RunShape(v, ops, split, resume, mode, slack, decoy, dry, false)
+}
+
+// c16RunShape: inPlace=true gives every clone the free tail of its parent's own buffer as target
+// (p.Clone(buf[p.Len():])), so that Append copies the bytes onto themselves.
+func c16RunShape(v asmVariant, ops []asmOp, split, resume, mode int, slack int, decoy, dry, inPlace bool) string {
 	const roomy = 512
 	mk := func(capacity int) *asm.Emitter {
 		if dry {
@@ -79,9 +85,13 @@ func c16RunFull(v asmVariant, ops []asmOp, split, resume, mode int, slack int, d
 		if dry {
 			return p.Clone(nil)
 		}
+		if inPlace {
+			t := p.Bytes()
+			return p.Clone(t[len(t):cap(t)])
+		}
 		return p.Clone(make([]byte, roomy))
 	}
-	if dry && (slack != 99 || decoy) {
+	if (dry || inPlace) && (slack != 99 || decoy) {
 		return ""
 	}
 	d := mk(roomy)
@@ -273,6 +283,9 @@ func replayC16(raw json.RawMessage) (string, error) {
 			if d := c16RunFull(h.Variant, ops, h.Split, resume, mode, 99, false, true); d != "" {
 				return fmt.Sprintf("%+v %v split %d resume %d mode %d, emitters without a target buffer: %s", h.Variant, h.Ops, h.Split, resume, mode, d), fmt.Errorf("unexplained:clone-append")
 			}
+			if d := c16RunShape(h.Variant, ops, h.Split, resume, mode, 99, false, false, true); d != "" {
+				return fmt.Sprintf("%+v %v split %d resume %d mode %d, clones in the parent's free tail: %s", h.Variant, h.Ops, h.Split, resume, mode, d), fmt.Errorf("unexplained:clone-append")
+			}
 		}
 	}
 	for resume := h.Split; resume < len(ops); resume++ {
@@ -313,6 +326,10 @@ func runC16(r *report.Run) {
 				}
 				if withSlack {
 					n++
+					if d := c16RunShape(v, ops, split, len(ops), 0, 99, false, false, true); d != "" {
+						return "unexplained:clone-append", fmt.Sprintf("%+v %v split %d, clone emitting into the free tail of its parent's buffer: %s", v, historyNames(al, idx), split, d), n, &asmHistory{Variant: v, Ops: historyNames(al, idx), Capacity: 512, Split: split}
+					}
+					n++
 					if d := c16RunFull(v, ops, split, len(ops), 0, 99, false, true); d != "" {
 						return "unexplained:clone-append", fmt.Sprintf("%+v %v split %d, emitters without a target buffer: %s", v, historyNames(al, idx), split, d), n, &asmHistory{Variant: v, Ops: historyNames(al, idx), Capacity: -1, Split: split}
 					}
@@ -322,6 +339,10 @@ func runC16(r *report.Run) {
 							n++
 							if d := c16RunResume(v, ops, split, resume, mode, 99, false); d != "" {
 								return "unexplained:clone-append", fmt.Sprintf("%+v %v split %d resume %d mode %d: %s", v, historyNames(al, idx), split, resume, mode, d), n, &asmHistory{Variant: v, Ops: historyNames(al, idx), Capacity: 512, Split: split}
+							}
+							n++
+							if d := c16RunShape(v, ops, split, resume, mode, 99, false, false, true); d != "" {
+								return "unexplained:clone-append", fmt.Sprintf("%+v %v split %d resume %d mode %d, clones emitting into the free tail of their parent's buffer: %s", v, historyNames(al, idx), split, resume, mode, d), n, &asmHistory{Variant: v, Ops: historyNames(al, idx), Capacity: 512, Split: split}
 							}
 							n++
 							if d := c16RunFull(v, ops, split, resume, mode, 99, false, true); d != "" {
@@ -353,7 +374,7 @@ func runC16(r *report.Run) {
 	r.Set("histories", hist)
 	r.Set("history_x_split_x_capacity_cases", st)
 	r.Set("bounds", map[string]interface{}{"history_depth": depth, "alphabet": len(asmAlphabet()), "constructor_variants": len(stage1), "splits": "every split point 0..n; at the first depth also every resume point (clone gets ops[split:resume], the rest is emitted after the Append directly, through a second Clone/Append, or before it through a clone of the clone)", "append_capacity_slack": []int{-1, 0, 1}})
-	r.Set("rule", "every call sequence up to the depth x every split point x every constructor variant: head into A, A.Clone, tail into the clone, A.Append(clone), compared with a direct emitter on Bytes/Len/PC/Flags/GetLabel/text and hex listings/Finalize outcome and finalized bytes; A is compared with its own snapshot before Append; at the first depth every scenario is also run with emitters that have no target buffer (NewEmitter(nil), Clone(nil)) and the emitter keeps emitting after the Append (every resume point: directly, through a second Clone/Append, or nested through a clone of the clone) and must still equal the direct one; Append with remaining capacity exactly tail-1 must be refused leaving A unchanged, tail and tail+1 must succeed; non-trivial = split strictly inside or capacity-edge cases")
+	r.Set("rule", "every call sequence up to the depth x every split point x every constructor variant: head into A, A.Clone, tail into the clone, A.Append(clone), compared with a direct emitter on Bytes/Len/PC/Flags/GetLabel/text and hex listings/Finalize outcome and finalized bytes; A is compared with its own snapshot before Append; at the first depth every scenario is also run with emitters that have no target buffer (NewEmitter(nil), Clone(nil)) and with clones that emit into the free tail of their parent's own buffer and the emitter keeps emitting after the Append (every resume point: directly, through a second Clone/Append, or nested through a clone of the clone) and must still equal the direct one; Append with remaining capacity exactly tail-1 must be refused leaving A unchanged, tail and tail+1 must succeed; non-trivial = split strictly inside or capacity-edge cases")
 	r.Sample(asmHistory{Variant: variants[2], Ops: []string{"BNE(a)", "Label(b)", "JMP_abs(b)", "Label(a)"}, Capacity: 512, Split: 2})
 	r.Assume("Finalize error choice depends on Go map order: the two emitters must both fail or both succeed, the errors need not be equal")
 }
